@@ -835,15 +835,16 @@ def set_transit_compartments(model: Model, n: int, keep_depot: bool = True):
     add_lag_time
 
     """
-    statements = model.statements
-    cs = get_and_check_odes(model)
-    transits = cs.find_transit_compartments(statements)
+    get_and_check_odes(model)
     try:
         n = _as_integer(n)
     except ValueError:
         raise ValueError(f'Number of compartments must be integer: {n}')
 
     model = remove_lag_time(model)
+    statements = model.statements
+    cs = get_and_check_odes(model)
+    transits = cs.find_transit_compartments(statements)
 
     # Handle keep_depot option
     depot = cs.find_depot(statements)
